@@ -252,7 +252,17 @@ func genClient(knx *pkg) string {
 	sb.WriteString("/- GENERATED by /verif/extract from /repo's working tree — do not edit.\n" +
 		"   The shutdown path of the tunnel client (knx/tunnel.go), statement by statement, in execution order. -/\n" +
 		"namespace Knx.Gen\n\n")
-	emit := func(name, doc string, words []string, ok bool, what string) {
+	emit := func(name, doc string, words []string, ok bool, what string, need ...string) {
+		// a list that lacks one of the statements the path must contain somewhere has been read from the
+		// wrong place (the statement moved to where the extractor does not look): not understood, rather
+		// than the fact "it is not executed" - the correspondence decides whether it still is
+		for _, n := range need {
+			has := false
+			for _, w := range words {
+				has = has || w == n
+			}
+			ok = ok && has
+		}
 		if !ok {
 			noteIncomplete(what + " was not understood")
 			words = []string{"unknown"}
@@ -267,9 +277,9 @@ func genClient(knx *pkg) string {
 		sb.WriteString("]\n\n")
 	}
 	w, ok := knx.exitOrder("Tunnel", "serve")
-	emit("tunnelExit", "what Tunnel.serve does when it ends (deferred calls, in the order in which they run)", w, ok, "exit path of Tunnel.serve")
+	emit("tunnelExit", "what Tunnel.serve does when it ends (deferred calls, in the order in which they run)", w, ok, "exit path of Tunnel.serve", "close inbound", "close ack", "done")
 	w, ok = knx.onceBody("Tunnel", "Close")
-	emit("tunnelCloseBody", "what the first call of Tunnel.Close does, in order", w, ok, "body of Tunnel.Close")
+	emit("tunnelCloseBody", "what the first call of Tunnel.Close does, in order", w, ok, "body of Tunnel.Close", "requestDisc", "close done", "wait", "sock.Close")
 	sb.WriteString("end Knx.Gen\n")
 	return sb.String()
 }
